@@ -10,7 +10,8 @@ Open Scope string_scope.
 Inductive val :=
 | VNum (n : nat)      (* a tag: printed, thrown or returned *)
 | VNil
-| VErr                (* the TypeError instance raised by the failing built-in `nil()` *)
+| VErr                (* the TypeError instance raised by the VM for the failing call `nil()` *)
+| VValErr             (* the ValueError instance returned as an error by the native method `"12x".to_num()` *)
 | VOvf                (* the IndexError instance "Stack overflow." raised by the 65th nested call *)
 | VBool (b : bool)
 | VFn (g : nat)       (* a function value (slot 0 of a frame) *)
@@ -22,7 +23,8 @@ Inductive stmt :=
 | Print (t : nat)                 (* print(t); *)
 | PrintExc                        (* print(e); e = variable of the innermost enclosing catch clause *)
 | Throw (t : nat)                 (* throw t; *)
-| BuiltinFail                     (* nil();  - a failing built-in operation *)
+| BuiltinFail                     (* nil();  - a failure raised by the VM itself (try_handle_error) *)
+| NativeFail                      (* "12x".to_num();  - a failure returned by a native (Err arm of call_native) *)
 | Try (b : stmt) (c : option stmt) (f : option stmt)
 | Loop (n : nat) (b : stmt)       (* { var i = 0; while i < n { i = i + 1; b } } *)
 | IfIter (k : nat) (s : stmt)     (* if i == k { s }   (i = counter of the innermost enclosing loop) *)
@@ -42,7 +44,7 @@ Definition is_some {A} (o : option A) : bool := match o with Some _ => true | No
 (* ---------- well-formedness = "the compiler accepts it and every name is bound" ---------- *)
 Fixpoint wf_stmt (nf : nat) (in_loop in_catch : bool) (s : stmt) : bool :=
   match s with
-  | Skip | Print _ | Throw _ | BuiltinFail | Return _ => true
+  | Skip | Print _ | Throw _ | BuiltinFail | NativeFail | Return _ => true
   | Seq a b => wf_stmt nf in_loop in_catch a && wf_stmt nf in_loop in_catch b
   | PrintExc => in_catch
   | Try b c f =>
@@ -64,7 +66,7 @@ Definition wf_prog (p : prog) : bool :=
 Fixpoint can_throw_with (callee : nat -> bool) (s : stmt) : bool :=
   match s with
   | Skip | Print _ | PrintExc | Break | Continue | Return _ => false
-  | Throw _ | BuiltinFail => true
+  | Throw _ | BuiltinFail | NativeFail => true
   | Seq a b => can_throw_with callee a || can_throw_with callee b
   | Try b c f =>
       match c with
@@ -86,7 +88,7 @@ Definition can_throw (p : prog) (fuel : nat) (s : stmt) : bool := can_throw_with
 (* does s contain no try statement, looking through calls? *)
 Fixpoint tryfree_with (callee : nat -> bool) (s : stmt) : bool :=
   match s with
-  | Skip | Print _ | PrintExc | Break | Continue | Return _ | Throw _ | BuiltinFail => true
+  | Skip | Print _ | PrintExc | Break | Continue | Return _ | Throw _ | BuiltinFail | NativeFail => true
   | Seq a b => tryfree_with callee a && tryfree_with callee b
   | Try _ _ _ => false
   | Loop _ b => tryfree_with callee b
@@ -168,7 +170,7 @@ Section Classes.
 
   Fixpoint known_class_stmt (k : kctx) (s : stmt) : option cls :=
     match s with
-    | Skip | Print _ | PrintExc | Throw _ | BuiltinFail => None
+    | Skip | Print _ | PrintExc | Throw _ | BuiltinFail | NativeFail => None
     | Seq a b => orelse (known_class_stmt k a) (known_class_stmt k b)
     | Return _ => match k_ret k with RBad c => Some c | _ => None end
     | Break | Continue => match k_loop k with LBad c => Some c | _ => None end
@@ -228,6 +230,7 @@ Fixpoint render_stmt (d : nat) (ev iv : string) (s : stmt) : string :=
   | PrintExc => "print(" ++ ev ++ "); "
   | Throw t => "throw " ++ show_nat t ++ "; "
   | BuiltinFail => "nil(); "
+  | NativeFail => """12x"".to_num(); "
   | Try b c f =>
       "try { " ++ render_stmt (S d) ev iv b ++ "} "
       ++ match c with
